@@ -262,7 +262,9 @@ func c14Hashes(c *Ctx) {
 				sl := r.Args[1]
 				buf := sl.Args[0]
 				hi := sl.Args[2]
-				half := hi.Op == "bin" && hi.Name == "/" && hi.Args[1].Key() == tInt(2).Key() && hi.Args[0].IsCall(".Len")
+				// half the length of the digest: buffer.Len()/2 or len(digest)/2
+				half := hi.Op == "bin" && hi.Name == "/" && hi.Args[1].Key() == tInt(2).Key() && (hi.Args[0].IsCall(".Len") || hi.Args[0].IsCall("len") && hi.Args[0].Args[0].Key() == buf.Key()) &&
+					hi.Args[0].Mentions(func(s *Term) bool { return s.IsCall(".Sum") })
 				lowOK := sl.Args[1].Key() == "_" || sl.Args[1].Key() == "0"
 				if !half || !lowOK {
 					ok, w, why = false, p, "the digest is not cut to its left half: "+clip(sl.Pretty(), 100)
